@@ -201,9 +201,30 @@ def blockwise_case(ctx, case, rng):
   return {}
 
 
+def bmm_const_lhs_case(ctx, case, rng):
+  """Directed: BATCH_MATMUL whose FIRST operand is the constant (KF-BMM-CONST-LHS-QUANTIZED-AS-WEIGHT keeps being observed here)."""
+  spec = models.single_op_model(rng, 'bmm_const_lhs' if rng.random() < 0.5 else 'bmm_const_lhs_adjx')
+  datasets = common.make_data(rng, spec)
+  ok, _ = common.admit(spec, datasets)
+  if not ok:
+    return {'outcome': 'skipped', 'reason': 'generator_reject'}
+  src = models.read(spec.content)
+  rules = [('.*', '*', str(rng.choice(['drq8_cw', 'drq8_tw', 'srq8a_tw', 'srq16_tw', 'wo8a_cw'])))]
+  run = common.pipeline(spec, datasets, rules=rules)
+  ctx.count('bmm_const_lhs_directed_cases')
+  if run.phase == 'no_rule_accepted' or run.exc is not None:
+    return {}
+  ctx.count('returned')
+  mo = check_returned(ctx, spec, run, 'rules:' + recipes.mode_of(rules[0][2]), datasets, src)
+  ctx.unit(common.model_key(spec, run.recipe), nontrivial=mo is not None)
+  return {}
+
+
 def run_case(ctx, case, rng):
   if case % 32 == 17:
     return blockwise_case(ctx, case, rng)
+  if case % 64 == 50:
+    return bmm_const_lhs_case(ctx, case, rng)
   seen = False
   # the structural statement covers every accepted recipe, the advanced block-wise ones (skip_checks, operator replacement) included
   pool = recipes.GOOD + (['x_blk8wo_b2', 'x_blk8_b2'] * 2 if case % 4 == 1 else [])
